@@ -269,17 +269,40 @@ def run(ctx):
     wfmt = None
     for x in ast.walk(sdt.node):
         if isinstance(x, ast.Call) and isinstance(x.func, ast.Attribute) and x.func.attr == "strftime" and dotted(x.func.value) == vname and x.args:
-            wfmt = prog.const(x.args[0], sdt.module)
+            wfmt = prog.const(x.args[0], sdt.module, None, el)
     templates = None
     slice_hi = None
     off_len = None
+    penv = {}
+    for x in walk_own(prs.node):
+        if isinstance(x, ast.Assign) and isinstance(x.targets[0], ast.Name):
+            v_ = prog.const(x.value, prs.module, penv, el)
+            from sa.pysrc import Unknown as _Unk
+
+            if not isinstance(v_, _Unk):
+                penv[x.targets[0].id] = v_
     for x in ast.walk(prs.node):
-        if isinstance(x, ast.Assign) and isinstance(x.value, ast.Tuple) and isinstance(x.targets[0], ast.Name) and x.targets[0].id == "templates":
-            templates = prog.const(x.value, prs.module)
+        # the templates are whatever is handed to strptime as the format: a constant, or the variable of a loop over a constant
+        if isinstance(x, ast.Call) and isinstance(x.func, ast.Attribute) and x.func.attr == "strptime" and len(x.args) == 2:
+            t = x.args[1]
+            loops_ = [lp for lp in ast.walk(prs.node) if isinstance(lp, ast.For) and isinstance(lp.target, ast.Name) and isinstance(t, ast.Name)
+                      and lp.target.id == t.id and any(y is x for y in ast.walk(lp))]
+            if loops_:
+                it = prog.const(loops_[0].iter, prs.module, penv, el)
+                if isinstance(it, (tuple, list)) and all(isinstance(q, str) for q in it):
+                    templates = tuple(it)
+            else:
+                tv = prog.const(t, prs.module, penv, el)
+                if isinstance(tv, str):
+                    templates = (templates or ()) + (tv,)
         if isinstance(x, ast.Subscript) and isinstance(x.slice, ast.Slice) and x.slice.lower is None and x.slice.upper is not None:
-            slice_hi = prog.const(x.slice.upper, prs.module)
+            k_ = prog.const(x.slice.upper, prs.module, penv, el)
+            if isinstance(k_, int):
+                slice_hi = k_
         if isinstance(x, ast.Compare) and isinstance(x.left, ast.Call) and dotted(x.left.func) == "len" and isinstance(x.ops[0], ast.Eq):
-            off_len = prog.const(x.comparators[0], prs.module)
+            k_ = prog.const(x.comparators[0], prs.module, penv, el)
+            if isinstance(k_, int):
+                off_len = k_
     probs = []
     if not isinstance(wfmt, str):
         probs.append("written pattern not found")
@@ -341,24 +364,53 @@ def run(ctx):
     else:
         ctx.violation("R18.3", "_datetime_of_element", "an unparseable timestamp is not turned into None", file=el.file, line=doe.line if doe else el.line)
     # xsi:type for created / modified
-    tagged = None
-    for x in ast.walk(sdt.node):
-        if isinstance(x, ast.If) and isinstance(x.test, ast.Compare) and isinstance(x.test.ops[0], ast.In):
-            names = prog.const(x.test.comparators[0], sdt.module)
-            sets = [c for c in ast.walk(x) if isinstance(c, ast.Call) and isinstance(c.func, ast.Attribute) and c.func.attr == "set"
-                    and dotted(c.func.value) == "element" and len(c.args) == 2]
-            for c in sets:
-                a0 = c.args[0]
-                q = prog.const(a0.args[0], sdt.module) if isinstance(a0, ast.Call) and dotted(a0.func) == "qn" and a0.args else None
-                if q == "xsi:type":
-                    tagged = (set(names) if isinstance(names, tuple) else None, prog.const(c.args[1], sdt.module))
-    need = {k for k, v in EXPECTED.items() if v[1].startswith("dcterms:")}
+    from sa import paths as P_
+    from sa.desugar import desugar as _desugar
+
+    dsd = _desugar(sdt.node)
+    pname = sdt.node.args.args[1].arg
+    tagged_for, untagged_for, value_ok, unknown = set(), set(), True, []
+    ALLP = {v[1].split(":")[1] if False else k for k, v in {}.items()}
+    date_children = {"created", "modified", "lastPrinted"}
+    for pth in P_.enum_paths(dsd.body):
+        if pth.end == "raise":
+            continue
+        fs = P_.facts(pth)
+        member = None  # (set of names, polarity)
+        for a in fs:
+            if a[0] == "in" and a[1] == pname:
+                names = prog.const(ast.parse(a[2], mode="eval").body, sdt.module, None, el)
+                if isinstance(names, (tuple, list, frozenset, set)):
+                    member = (set(names), a[3])
+        does = None
+        for st_ in pth.stmts():
+            for c in ast.walk(st_):
+                if isinstance(c, ast.Call) and isinstance(c.func, ast.Attribute) and c.func.attr == "set" and len(c.args) == 2 \
+                        and dotted(c.func.value) not in ("self",):
+                    a0 = c.args[0]
+                    q = prog.const(a0.args[0], sdt.module) if isinstance(a0, ast.Call) and dotted(a0.func) == "qn" and a0.args else None
+                    if q == "xsi:type":
+                        does = prog.const(c.args[1], sdt.module, None, el)
+        if member is None:
+            if does is not None:
+                tagged_for |= date_children  # unconditional tagging
+            else:
+                unknown.append("a path neither tests the property name nor tags")
+            continue
+        inside = member[0] if member[1] else date_children - member[0]
+        if does is not None:
+            tagged_for |= inside
+            value_ok = value_ok and does == "dcterms:W3CDTF"
+        else:
+            untagged_for |= inside
     need_children = {"created", "modified"}
-    if tagged == (need_children, "dcterms:W3CDTF"):
+    if tagged_for == need_children and not (untagged_for & need_children) and value_ok:
         ctx.ok("R18.3", "xsi:type", sample={"elements": sorted(need_children), "value": "dcterms:W3CDTF"})
+    elif not tagged_for and not untagged_for:
+        ctx.error("CT_CoreProperties._set_element_datetime", "xsi:type tagging not recognised on any path")
     else:
-        ctx.violation("R18.3", "xsi:type", "dcterms:created / dcterms:modified are not written with xsi:type=\"dcterms:W3CDTF\" (found %s): the part "
-                      "is invalid against opc-coreProperties.xsd" % (tagged,), file=sdt.file, line=sdt.line)
+        ctx.violation("R18.3", "xsi:type", "xsi:type=\"dcterms:W3CDTF\" is written for %s (value ok: %s) and omitted for %s; the schema requires it on exactly "
+                      "dcterms:created and dcterms:modified" % (sorted(tagged_for), value_ok, sorted(untagged_for & need_children)), file=sdt.file, line=sdt.line)
     # offsets: evaluate the correction applied to the timestamp under each sign, in minutes, as a polynomial in H (hours
     # field) and M (minutes field); expected -(60H + M) for '+', +(60H + M) for '-'
     from sa.poly import Poly
@@ -497,13 +549,32 @@ def run(ctx):
         ctx.violation("R18.4", "revision_number.setter", "revision does not refuse non-positive / non-int values with ValueError before mutation "
                       "(guard@%s mutation@%s exc=%s writes str(value)=%s)" % (gi, mi, exc, wr), file=rs.file, line=rs.line)
     rets = [x.value for x in walk_own(rg.node) if isinstance(x, ast.Return)]
-    ints = all((isinstance(r, ast.Constant) and isinstance(r.value, int)) or isinstance(r, ast.Name) for r in rets)
-    conv = any(isinstance(x, ast.Call) and dotted(x.func) == "int" for x in ast.walk(rg.node))
-    if rets and ints and conv:
-        ctx.ok("R18.4", "revision_number.getter", sample={"returns": "int(text) or 0"})
-    else:
-        ctx.violation("R18.4", "revision_number.getter", "revision reader does not return an int", file=rg.file, line=rg.line)
 
+    def int_valued(e, depth=0):
+        if depth > 5 or e is None:
+            return False
+        if isinstance(e, ast.Constant):
+            return isinstance(e.value, int) and not isinstance(e.value, bool)
+        if isinstance(e, ast.Call) and dotted(e.func) == "int":
+            return True
+        if isinstance(e, ast.Call) and dotted(e.func) in ("max", "min", "abs") and e.args:
+            return all(int_valued(a_, depth + 1) for a_ in e.args)
+        if isinstance(e, ast.BinOp) and isinstance(e.op, (ast.Add, ast.Sub, ast.Mult, ast.FloorDiv, ast.Mod)):
+            return int_valued(e.left, depth + 1) and int_valued(e.right, depth + 1)
+        if isinstance(e, ast.IfExp):
+            return int_valued(e.body, depth + 1) and int_valued(e.orelse, depth + 1)
+        if isinstance(e, ast.Name):
+            # the value reaching a return is the last int binding: accept when some binding is int-valued and every binding is either
+            # int-valued or the element / its text (re-used local names in the original code)
+            bs = [n_.value for n_ in ast.walk(rg.node) if isinstance(n_, ast.Assign) and any(isinstance(t, ast.Name) and t.id == e.id for t in n_.targets)]
+            return any(int_valued(b_, depth + 1) for b_ in bs)
+        return False
+
+    if rets and all(int_valued(r) for r in rets):
+        ctx.ok("R18.4", "revision_number.getter", sample={"returns": "int(text) (clamped at 0) or 0"})
+    else:
+        bad = [ast.unparse(r) for r in rets if not int_valued(r)]
+        ctx.violation("R18.4", "revision_number.getter", "revision reader can return a non-integer (%s)" % bad, file=rg.file, line=rg.line)
 
     # -- R18.5 -------------------------------------------------------------------------------------------
     from checks.c16 import core_properties_default_rule
